@@ -106,7 +106,10 @@ def observe_text(s: str) -> dict:
     global _LOADER, _DUMPER
     if _LOADER is None:
         _LOADER = _ld.get_yaml_default_loader()("")
-        _DUMPER = yaml.SafeDumper(io.StringIO())
+        # the dumper class yaml_dump hands to PyYAML (get_yaml_default_dumper since the repair f3cd0b1; a tree that
+        # lacks it dumps with the stock yaml.SafeDumper)
+        get_dumper = getattr(_ld, "get_yaml_default_dumper", None)
+        _DUMPER = (get_dumper() if get_dumper else yaml.SafeDumper)(io.StringIO())
     o = {"s": syms(s)}
     o["d"] = _tag(_DUMPER.resolve(yaml.ScalarNode, s, (True, False)))
     o["l"] = _tag(_LOADER.resolve(yaml.ScalarNode, s, (True, False)))
@@ -275,10 +278,17 @@ def scalar_level(rep: Report, tier: str, tmp, mc) -> None:
         "load_basic_disagrees_with_loader_in_model": len(basic),
     }
     # the model must FIND the known family (non-vacuity of the law and of the named deviations)
-    must = [tuple("1e3"), tuple("1E3"), tuple("1e+3"), tuple("1.e3"), tuple("-9e1")]
+    # (the float families 1e3 / ._1 were the exemplars until they were repaired by f3cd0b1; the NEL family remains)
+    must = [("a", "NEL", "b"), ("a", "NEL", "NEL", "b")]
     missing = [m for m in must if ("text", m) not in cex]
     if missing:
         machinery_failure(PID, f"TLC did not report {missing} as violating the plain round-trip law: the model lost the known family")
+    # ... and the repaired float families must be in the instance, predicted QUOTED and read back as themselves
+    repaired = [tuple("1e3"), tuple("1E3"), tuple("1e+3"), tuple("1.e3"), tuple("-9e1"), tuple("._1")]
+    bad = [m for m in repaired if m not in pred or pred[m][PRED_NAMES.index("style")] == "plain" or pred[m][PRED_NAMES.index("deviation")] != "none"
+           or pred[m][PRED_NAMES.index("dumper-tag")] != "float" or ("text", m) in cex]
+    if bad:
+        machinery_failure(PID, f"the model does not predict {bad} as quoted by the repaired dumper (f3cd0b1): {[pred.get(m) for m in bad]}")
 
     # ---- replay: every enumerated text on the real code
     chunks = [texts[i:i + 4000] for i in range(0, len(texts), 4000)]
@@ -360,7 +370,8 @@ def scalar_level(rep: Report, tier: str, tmp, mc) -> None:
 # ---------------------------------------------------------------- scalar level: hypothesis-driven observations -> Trace_Scalars
 def _resolver_patterns():
     pats = []
-    for cls in (yaml.SafeDumper, _ld.get_yaml_default_loader()):
+    get_dumper = getattr(_ld, "get_yaml_default_dumper", None)
+    for cls in (yaml.SafeDumper, get_dumper() if get_dumper else yaml.SafeDumper, _ld.get_yaml_default_loader()):
         seen = set()
         for lst in cls.yaml_implicit_resolvers.values():
             for tag, rx in lst:
